@@ -122,6 +122,22 @@ def check_index(ctx, tag, ix, labels, absent, info):
         if hier and labels:
             # a key with more or fewer components than the depth is no label of this hierarchy
             absent = list(absent) + [tuple(labels[0]) + (labels[0][-1],), tuple(labels[-1]) + (0, 0)] + ([tuple(labels[0][:-1])] if len(labels[0]) > 2 else [])
+        # datetime indices: an instant given at a finer resolution (text, date / datetime object, datetime64) inside a held period is not a held label
+        if isinstance(ix, sf.Index) and ix.dtype.kind == 'M' and labels:
+            import datetime as _dt
+            unit = np.datetime_data(ix.dtype)[0]
+            l0 = np.datetime64(labels[0], unit)
+            finer = []
+            if unit == 'Y':
+                y = int(str(l0))
+                finer = [f'{y}-03', f'{y}-03-15', _dt.date(y, 3, 15), np.datetime64(f'{y}-03-15')]
+            elif unit == 'M':
+                finer = [f'{l0}-15', _dt.date(int(str(l0)[:4]), int(str(l0)[5:7]), 15), np.datetime64(f'{l0}-15')]
+            elif unit == 'D':
+                finer = [f'{l0}T10:30:00', _dt.datetime(int(str(l0)[:4]), int(str(l0)[5:7]), int(str(l0)[8:10]), 10, 30), np.datetime64(f'{l0}T10:30:00')]
+            for a in finer:
+                if a in ix:
+                    return ctx.violation(f'{tag}|finer-resolution-instant-contained', **info, key=repr(a), labels=[str(x) for x in labels])
         for a in absent:
             if any(pyset_key(a) == pyset_key(l) for l in labels):
                 continue
